@@ -3,6 +3,7 @@ package otto
 import (
 	"fmt"
 	"math"
+	"math/big"
 	"regexp"
 	"strconv"
 	"unicode/utf16"
@@ -41,10 +42,33 @@ func numberToStringRadix(value Value, radix int) string {
 	case float == 0:
 		return "0"
 	}
-	// FIXME This is very broken
-	// Need to do proper radix conversion for floats, ...
-	// This truncates large floats (so bad).
-	return strconv.FormatInt(int64(float), radix)
+	sign := ""
+	if float < 0 {
+		sign, float = "-", -float
+	}
+	integer, fraction := math.Modf(float)
+	whole, _ := new(big.Float).SetFloat64(integer).Int(nil) // exact, any magnitude
+	result := sign + whole.Text(radix)
+	if fraction == 0 {
+		return result
+	}
+	// Exact digits of the fraction until the rest is below a quarter ulp of
+	// the value: the numeral then still denotes (rounds to) the same double.
+	mant, exp := math.Frexp(fraction) // fraction = mant * 2^exp
+	shift := uint(55 - exp)           // fraction = num / 2^shift
+	num := new(big.Int).Lsh(big.NewInt(int64(math.Ldexp(mant, 53))), 2)
+	_, ulpExp := math.Frexp(math.Nextafter(float, math.Inf(1)) - float) // ulp = 2^(ulpExp-1)
+	limit := new(big.Int).Lsh(big.NewInt(1), uint(int(shift)+ulpExp-3))
+	mask := new(big.Int).Sub(new(big.Int).Lsh(big.NewInt(1), shift), big.NewInt(1))
+	base := big.NewInt(int64(radix))
+	result += "."
+	for num.Cmp(limit) >= 0 {
+		num.Mul(num, base)
+		limit.Mul(limit, base)
+		result += string("0123456789abcdefghijklmnopqrstuvwxyz"[new(big.Int).Rsh(num, shift).Int64()])
+		num.And(num, mask)
+	}
+	return result
 }
 
 func (v Value) string() string {
